@@ -28,13 +28,14 @@ def main(tier: str) -> int:
     ]
     model_check(run, "quick")
     if tier == "quick":
-        traces = pu.generate(14, run.seed, 150) + [pu.history((run.seed * 7 + i, "generated", 400)) for i in range(3)]
+        traces = pu.generate(14, run.seed, 150) + [pu.history((run.seed * 7 + i, "generated", 400)) for i in range(3)] \
+            + [pu.history((run.seed * 11 + i, "generated-sheet", 200)) for i in range(2)]
     else:
         traces = pu.generate(84, run.seed, 2000, all_samples=True) + pu.generate(12, run.seed + 1, 2000)
         import multiprocessing as mp
 
         with mp.get_context("fork").Pool(16) as pool:
-            traces += pool.map(pu.history, [(run.seed * 7 + i, "generated", 2000) for i in range(32)])
+            traces += pool.map(pu.history, [(run.seed * 7 + i, "generated", 2000) for i in range(32)] + [(run.seed * 11 + i, "generated-sheet", 2000) for i in range(16)])
     res, rep = pd.validate(traces)
     run.add_tlc("PackageTrace validation of read-only calls", res)
     if rep is None:
